@@ -36,7 +36,10 @@ from PyMatterSim.static.vector import (divergence_curl, local_vector_alignment, 
 
 RULE = ("fields {uniform, one-particle, localised, random, linear u = A r + b, plane waves along / across q} x N 2-20 "
         "(lattices up to 36) x d {2,3} x synthetic neighbour files (cn >= 1, rows in any order) x cells {ortho, tri} x "
-        "masks x non-zero integer wave vectors x T 2-5 frames with even / uneven timesteps. Non-trivial rules per facet.")
+        "masks x non-zero integer wave vectors x T 2-5 frames with even / uneven timesteps. Extension 1: coordination "
+        "number varying within a frame (padded rows), second call of divergence_curl / vector_decomposition_sq on the "
+        "same snapshot, field and file objects after an in-place change (re-tilted or rescaled cell, new positions, "
+        "field, lists). Non-trivial rules per facet.")
 ASSUMPTIONS = [
     "every particle has >= 1 listed neighbour (the measures divide by the coordination number); lists hold distinct "
     "particles other than the centre",
